@@ -30,11 +30,18 @@ func init() {
 			for hist := 0; hist <= 3; hist++ {
 				cs = append(cs, driver.Case{Harness: "verifH_c10_kx_history", Pkg: "internal/sm9", Config: "purego", Params: P("hist", hist), Overrides: sm9OverridesC10(), MaxUnwind: 4000, TimeoutS: 1800, Portfolio: true, MustReach: []string{"done"}})
 			}
+			for _, cn := range []int{0, 63, 64, 65, 66} {
+				c := driver.Case{Harness: "verifH_c10_unwrap", Pkg: "internal/sm9", Config: "purego", Params: P("cn", cn), Overrides: sm9OverridesC10(), MaxUnwind: 4000, TimeoutS: 900, Portfolio: true}
+				if cn == 64 || cn == 65 {
+					c.MustReach = []string{"accepted"}
+				}
+				cs = append(cs, c)
+			}
 			return cs
 		},
-		Functions:   []string{"internal/sm9.(*SignMasterPublicKey).Verify, GenerateUserPublicKey, hashH1/hashH2 (real code over the uninterpreted SM3 compression function)", "internal/sm9.(*KeyExchange).InitKeyExchange, ConfirmResponder, sign, generateSharedKey, randomScalar", "bn256.(*G1).Unmarshal, (*gfP).Unmarshal (real range checks)", "internal/sm3 Kdf (purego)"},
+		Functions:   []string{"internal/sm9.(*EncryptPrivateKey).UnwrapKey", "internal/sm9.(*SignMasterPublicKey).Verify, GenerateUserPublicKey, hashH1/hashH2 (real code over the uninterpreted SM3 compression function)", "internal/sm9.(*KeyExchange).InitKeyExchange, ConfirmResponder, sign, generateSharedKey, randomScalar", "bn256.(*G1).Unmarshal, (*gfP).Unmarshal (real range checks)", "internal/sm3 Kdf (purego)"},
 		Assumptions: []string{"abstract groups and pairing: elements are their affine encodings, G1/G2/GT operations and the pairing are uninterpreted functions (harness/internal/sm9/bn256/models_purego.go); curve membership opaque", "uid lengths 2-3 bytes, key length 16"},
-		Bounds:      map[string]string{"quick": "Verify: every (uid, hid, hash, h, S) with S of 0/64/65/66 bytes; key exchange: four initiator histories of up to two InitKeyExchange and two ConfirmResponder calls on one object", "thorough": "same"},
+		Bounds:      map[string]string{"quick": "UnwrapKey: every C of 0/63/64/65/66 bytes; Verify: every (uid, hid, hash, h, S) with S of 0/64/65/66 bytes; key exchange: four initiator histories of up to two InitKeyExchange and two ConfirmResponder calls on one object", "thorough": "same"},
 		Outside:     []string{"completeness and soundness of the schemes as pairing algebra (bilinearity is not in the model): that honest signatures verify, that unwrap/decrypt invert wrap/encrypt, that initiator and responder agree", "encryption modes, ASN.1 encodings of keys and ciphertexts", "cross-build byte equality other than the multi-lane KDF dispatch decided under C01"},
 		Oracle:      "GM/T 0044 verification equation and key-exchange key derivation as data flow",
 	})
